@@ -75,6 +75,7 @@ type ChainRow struct {
 type Tables struct {
 	Modes  []ModeRow
 	Chains []ChainRow
+	Cmds   []string                 // C03Sites.CmdKinds
 	Vals   []map[string]interface{} // exported values (spec encoding)
 	Texts  []string                 // their texts (ToText)
 }
@@ -113,13 +114,14 @@ func ExportTables(ctx *core.Ctx) *Tables {
 			var h struct {
 				Vals   []map[string]interface{} `json:"vals"`
 				Texts  []string                 `json:"texts"`
+				Cmds   []string                 `json:"cmds"`
 				Canary string                   `json:"canary"`
 			}
 			if err := d.Decode(&h); err != nil || h.Canary != canary {
 				ctx.ToolError("M2 export: header/canary did not survive the TLC->Go boundary (%v, %q)", err, h.Canary)
 				return nil
 			}
-			t.Vals, t.Texts = h.Vals, h.Texts
+			t.Vals, t.Texts, t.Cmds = h.Vals, h.Texts, h.Cmds
 		case strings.HasPrefix(p, `{"mode"`):
 			var m ModeRow
 			if err := d.Decode(&m); err != nil {
@@ -436,6 +438,7 @@ func Run(ctx *core.Ctx) {
 		CancelTable(ctx, t)
 		Grid(ctx, real, t, vals, off, y, errs)
 		MsgBundles(ctx, real, t, vals)
+		PrecedingCommands(ctx, t, vals, off, y)
 		RandomTraces(ctx, real, t, ctx.Pick(4000, 50000))
 	}
 	wg.Wait()
@@ -447,7 +450,7 @@ func Run(ctx *core.Ctx) {
 
 var devs = []string{"iwb_returns_input", "iwb_counts_escaped", "escaper_drops_apos", "callee_inherits", "truncate_cancels",
 	"escapehtml_keeps_autoescape", "nonstring_raw", "nl2br_unescaped", "ns_attr_ignored", "deprecated_contextual_unspecified",
-	"nonstring_input_raw", "placeholder_name_ignores_directives"}
+	"nonstring_input_raw", "placeholder_name_ignores_directives", "log_leaves_escaping_off"}
 
 // ModelCheck runs the reference model (must hold) and the deviations (each
 // must be rejected).
@@ -462,7 +465,8 @@ func ModelCheck(ctx *core.Ctx) {
 			ctx.ToolError("M1: the reference model violates %s (spec bug): %s", res.Violated, clip(res.Trace))
 		}
 	}
-	wg.Add(3)
+	wg.Add(4)
+	go ref("M1-cmds", "cmds", 1, 3)
 	go ref("M1-msgs", "msgs", 1, 2)
 	go ref("M1-sites", "sites", 1, 2)
 	go ref("M1-chains", "chains", ctx.Pick(2, 3), ctx.Pick(4, 10))
@@ -478,6 +482,9 @@ func ModelCheck(ctx *core.Ctx) {
 			}
 			if dev == "placeholder_name_ignores_directives" {
 				mode = "msgs"
+			}
+			if dev == "log_leaves_escaping_off" {
+				mode = "cmds"
 			}
 			res, err := c16.RunTLC(ctx, core.TLCOpts{Module: "C03Model", Cfg: cfg03(dev, mode, 1), Workers: 1, Timeout: 5 * time.Minute, Label: "M1-dev-" + dev})
 			if err != nil {
